@@ -56,6 +56,7 @@ type result struct {
 	Records string
 	Race    string
 	Took    int
+	Order   string // per-item pools: the tree ids in the order the caller received the records
 }
 
 func (r request) fields() []string {
@@ -218,9 +219,12 @@ func runLib(c *core.Ctx, r request) (res result) {
 			s  string
 		}
 		var recs []rec
+		var order []int
 		for st := range stats {
+			order = append(order, st.Id)
 			recs = append(recs, rec{st.Id, fmt.Sprintf("%d:%d:%d:%d:%v:%s;", st.Id, st.Tree1, st.Tree2, st.Common, st.Sametree, errClass(st.Err))})
 		}
+		res.Order = core.IntList(order)
 		sort.SliceStable(recs, func(i, j int) bool { return recs[i].id < recs[j].id })
 		var b strings.Builder
 		for _, x := range recs {
@@ -241,9 +245,12 @@ func runLib(c *core.Ctx, r request) (res result) {
 		// the consumer keeps what it receives and reads it when the channel is closed: a record whose
 		// slices a worker goes on writing after the send (buffers reused from tree to tree) shows
 		var kept []tree.WeightedBipartitionStats
+		var order []int
 		for st := range stats {
+			order = append(order, st.Id)
 			kept = append(kept, st)
 		}
+		res.Order = core.IntList(order)
 		for _, st := range kept {
 			recs = append(recs, rec{st.Id, fmt.Sprintf("%d:%s:%s:%s:%v:%s;", st.Id, sortedRats(st.Tree1), sortedRats(st.Tree2), sortedRats(st.Common), st.Sametree, errClass(st.Err))})
 		}
@@ -368,7 +375,7 @@ func child(c *core.Ctx, file string) {
 				res = result{Outcome: "panic:" + core.Escape(msg), Took: -1}
 			}
 		}
-		fmt.Fprintf(c.W, "R\t%d\t%s\t%s\t%d\n", i, res.Outcome, res.Records, res.Took)
+		fmt.Fprintf(c.W, "R\t%d\t%s\t%s\t%d;%s\n", i, res.Outcome, res.Records, res.Took, res.Order)
 		c.W.Flush()
 	}
 	fmt.Fprintf(os.Stderr, "\n@@REQ %d\n", len(lines))
@@ -381,10 +388,19 @@ func child(c *core.Ctx, file string) {
 func (cfg *config) watchdog() time.Duration {
 	d := 8 * time.Second
 	if cfg.race {
+		// (a race build links cgo, and with cgo the Go runtime does not report "all goroutines are
+		// asleep": a deadlock is a hang there, each one costs the whole watchdog)
 		d = 60 * time.Second
+		if cfg.search {
+			d = 20 * time.Second
+		}
 	}
 	if cfg.patient {
-		d *= 4
+		if cfg.race {
+			d *= 2
+		} else {
+			d *= 4
+		}
 	}
 	return d
 }
@@ -396,6 +412,7 @@ type config struct {
 	nchild   int
 	ncli     int
 	search   bool // short race search after a broken table
+	ncoll    int  // number of collections (0 = by tier)
 	patient  bool // confirming a timeout
 	nshrunk  int
 	hangs    map[string]int
@@ -408,7 +425,18 @@ func (cfg *config) noteTimeout(kind string) {
 	cfg.hangs[kind]++
 }
 
-func (cfg *config) dead(kind string) bool { return cfg.hangs[kind] >= 3 }
+// a kind that hung three times (twice under the race detector) is not run any further; after four
+// confirmed hangs in a race pass nothing more is run in it
+func (cfg *config) dead(kind string) bool {
+	total := 0
+	for _, n := range cfg.hangs {
+		total += n
+	}
+	if cfg.race {
+		return cfg.hangs[kind] >= 2 || total >= 4
+	}
+	return cfg.hangs[kind] >= 3
+}
 
 // raceOf extracts the race report (if any) of request idx from the child's stderr.
 func raceSegments(stderr string) map[int]string {
@@ -461,7 +489,7 @@ func runBatch(c *core.Ctx, cfg *config, reqs []request) []result {
 		if res[last].Outcome == "timeout" && !cfg.patient {
 			// a timeout is confirmed alone with a four times longer watchdog (a loaded machine must not
 			// be mistaken for a hang)
-			again := &config{race: cfg.race, childBin: cfg.childBin, gotree: cfg.gotree, patient: true}
+			again := &config{race: cfg.race, childBin: cfg.childBin, gotree: cfg.gotree, patient: true, search: cfg.search}
 			one := make([]result, 1)
 			runChild(c, again, reqs[last:last+1], one)
 			res[last] = one[0]
@@ -543,9 +571,14 @@ loop:
 				continue
 			}
 			idx, _ := strconv.Atoi(f[1])
-			took, _ := strconv.Atoi(f[4])
+			tf := strings.SplitN(f[4], ";", 2)
+			took, _ := strconv.Atoi(tf[0])
+			order := ""
+			if len(tf) == 2 {
+				order = tf[1]
+			}
 			if idx == settled {
-				res[idx] = result{Outcome: f[2], Records: f[3], Took: took}
+				res[idx] = result{Outcome: f[2], Records: f[3], Took: took, Order: order}
 				settled++
 			}
 		case <-time.After(cfg.watchdog()):
@@ -708,7 +741,19 @@ func runCLI(c *core.Ctx, cfg *config, r request) result {
 		}
 		res.Outcome = "crash:" + core.Escape(msg)
 	case x.Exit != 0:
+		// the error the command reports (cobra prints `Error: <message>`), classified like the library's
 		res.Outcome = "err:exit"
+		for _, l := range strings.Split(strings.ReplaceAll(x.Stderr, "\r", "\n"), "\n") {
+			if strings.HasPrefix(l, "Error: ") {
+				switch m := strings.TrimPrefix(l, "Error: "); {
+				case strings.Contains(m, "same tip names"), strings.Contains(m, "same number of tips"):
+					res.Outcome = "err:taxa"
+				case strings.Contains(m, "newick Error"), m == "EOF", strings.Contains(m, "Unterminated tree"):
+					res.Outcome = "err:item"
+				}
+				break
+			}
+		}
 	default:
 		res.Outcome = "ok"
 		ls := strings.Split(strings.TrimRight(x.Stdout, "\n"), "\n")
@@ -820,10 +865,13 @@ func runAndEmit(c *core.Ctx, cfg *config, reqs []request) {
 		if hardFailure(x.Outcome) && cfg.nshrunk < 3 && !cfg.patient {
 			cfg.nshrunk++
 			if small, sx, sref, ok := shrink(c, cfg, r); ok {
-				c.Emit(small.op(), append(small.fields(), sx.Outcome, sx.Records, sref.Outcome, sref.Records, sx.Race, strconv.Itoa(sx.Took))...)
+				c.Emit(small.op(), append(small.fields(), sx.Outcome, sx.Records, sref.Outcome, sref.Records, sx.Race, strconv.Itoa(sx.Took)+";"+sx.Order)...)
 			}
 		}
-		c.Emit(r.op(), append(f, x.Outcome, x.Records, ref.Outcome, ref.Records, x.Race, strconv.Itoa(x.Took))...)
+		if cfg.race && !strings.Contains(f[2], "R") {
+			f[2] += "R" // this case ran under the race detector
+		}
+		c.Emit(r.op(), append(f, x.Outcome, x.Records, ref.Outcome, ref.Records, x.Race, strconv.Itoa(x.Took)+";"+x.Order)...)
 	}
 }
 
@@ -831,17 +879,19 @@ func runAndEmit(c *core.Ctx, cfg *config, reqs []request) {
 // test, for replaying a case whose recorded failure is a race report.  Scratch binaries in c.Tmp.
 func buildRace(c *core.Ctx, cfg *config, needCLI bool) {
 	buildDir := filepath.Dir(c.Tmp)
-	// this binary is `vh` (shared, all integrated properties) or `vh-C11` (development), maybe `…-race`
-	name := strings.TrimSuffix(filepath.Base(os.Args[0]), "-race")
-	mod := filepath.Join(buildDir, "gomod"+strings.TrimPrefix(name, "vh"), "go.mod")
 	harness := filepath.Join(filepath.Dir(buildDir), "harness")
-	if _, err := os.Stat(mod); err != nil {
-		fmt.Fprintf(os.Stderr, "c11: no %s: no race build\n", mod)
+	// a go.mod of our own whose `replace` names the repository under test (harness/mkmod.sh)
+	modDir := filepath.Join(c.Tmp, "racemod")
+	mk := exec.Command("sh", filepath.Join(harness, "mkmod.sh"), modDir)
+	mk.Env = append(os.Environ(), "VERIF_REPO="+c.Repo)
+	if out, err := mk.CombinedOutput(); err != nil {
+		fmt.Fprintf(os.Stderr, "c11: mkmod failed: %v\n%s\n", err, out)
 		return
 	}
+	mod := filepath.Join(modDir, "go.mod")
 	env := append(os.Environ(), "CGO_ENABLED=1")
 	vh := filepath.Join(c.Tmp, "vh-race-replay")
-	cmd := exec.Command("go", "build", "-race", "-tags", "verif", "-modfile="+mod, "-o", vh, "./cmd/"+name)
+	cmd := exec.Command("go", "build", "-race", "-tags", "verif", "-modfile="+mod, "-o", vh, "./cmd/vh-C11")
 	cmd.Dir = harness
 	cmd.Env = env
 	if out, err := cmd.CombinedOutput(); err != nil {
@@ -861,6 +911,32 @@ func buildRace(c *core.Ctx, cfg *config, needCLI bool) {
 		}
 		cfg.gotree = gt
 	}
+}
+
+// racePass: a race-detector build of this harness on demand, then the regression corpus (requests up to
+// maxLine bytes; 0 = all) and ncoll generated collections under it.  The cases carry the flag letter R.
+func racePass(c *core.Ctx, ncoll, maxLine int) {
+	rc := &config{}
+	buildRace(c, rc, false)
+	if rc.childBin == "" {
+		return
+	}
+	defer os.Remove(rc.childBin)
+	rc.search = true
+	if files, err := filepath.Glob(filepath.Join(filepath.Dir(filepath.Dir(c.Tmp)), "corpus", "C11-*.txt")); err == nil {
+		sort.Strings(files)
+		for _, f := range files {
+			var lines []string
+			for _, l := range core.ReadRequests(f) {
+				if (maxLine == 0 || len(l) <= maxLine) && !strings.HasPrefix(l, "C11.pool\tcli") {
+					lines = append(lines, l)
+				}
+			}
+			replay(c, rc, lines)
+		}
+	}
+	rc.ncoll = ncoll
+	generate(c, rc)
 }
 
 func hardFailure(outcome string) bool {
@@ -928,7 +1004,7 @@ func replay(c *core.Ctx, cfg *config, lines []string) {
 		}
 		reqs = append(reqs, r)
 		// a replay file holds the whole case line: field 10 is the recorded race report
-		if f := strings.Split(l, "\t"); len(f) >= 12 && f[10] != "" {
+		if f := strings.Split(l, "\t"); (len(f) >= 12 && f[10] != "") || strings.Contains(r.Flags, "R") {
 			needRace = true
 			if r.cli() {
 				needCLI = true
@@ -1003,11 +1079,18 @@ func rootTip(g *core.G, n *core.N, o *core.TreeOpts) *core.N {
 // break the hypotheses of the LTS theorems (exit paths of pool workers without wg.Done, writes to
 // captured variables without synchronisation), so that a broken table names its rows in the replay.
 func tableCase(c *core.Ctx) (nleaks, nunsync int) {
-	if err := selfTest(); err != nil {
-		c.Emit("C11.table", "error", core.StrList([]string{err.Error()}), "")
-		return 0, 0
-	}
 	gos, err := extractGoroutines(c.Repo)
+	return tableEmit(c, gos, err)
+}
+
+// tableEmit prints the C11.table case for an extraction result (the extractor's self-test has run in
+// `vh gen-tables` of the same check; it is repeated here only when the extraction itself fails).
+func tableEmit(c *core.Ctx, gos []*xGo, err error) (nleaks, nunsync int) {
+	if err != nil {
+		if e2 := selfTest(); e2 != nil {
+			err = e2
+		}
+	}
 	if err != nil {
 		c.Emit("C11.table", "error", core.StrList([]string{err.Error()}), "")
 		return 0, 0
@@ -1052,6 +1135,19 @@ func tableCase(c *core.Ctx) (nleaks, nunsync int) {
 			}
 		}
 	}
+	for _, cl := range callers {
+		if !cl.Ranged {
+			leaks = append(leaks, fmt.Sprintf("cmd/comparetrees.go:%d the channel %s returned by tree.%s is not ranged over by its caller", cl.Line, cl.Var, cl.Fn))
+		}
+		for _, d := range cl.Drains {
+			if d != cl.Var {
+				leaks = append(leaks, fmt.Sprintf("cmd/comparetrees.go:%d inside the loop over %s (tree.%s) the caller empties another channel: %s", cl.Line, cl.Var, cl.Fn, d))
+			}
+		}
+	}
+	if len(callers) < 2 {
+		leaks = append(leaks, "cmd/comparetrees.go: the calls of tree.Compare and tree.CompareWeighted were not both found")
+	}
 	for _, g := range hmMethods {
 		if strings.HasPrefix(g.Fn, "Supporter.") {
 			for _, a := range g.Accesses {
@@ -1074,30 +1170,40 @@ func tableCase(c *core.Ctx) (nleaks, nunsync int) {
 func generate(c *core.Ctx, cfg *config) {
 	g := c.G
 	if !cfg.race {
-		if _, nunsync := tableCase(c); nunsync > 0 && cfg.childBin == "" {
-			// the table shows an unsynchronised shared write: search for a failing run with the race
-			// detector right away (race build on demand), on the regression corpus and a focused sweep
-			rc := &config{}
-			buildRace(c, rc, false)
-			if rc.childBin != "" {
-				if files, err := filepath.Glob(filepath.Join(filepath.Dir(filepath.Dir(c.Tmp)), "corpus", "C11-*.txt")); err == nil {
-					sort.Strings(files)
-					for _, f := range files {
-						replay(c, rc, core.ReadRequests(f))
-					}
-				}
-				rc.search = true
-				generate(c, rc)
-				os.Remove(rc.childBin)
-			}
+		// the table is extracted while the generated runs execute
+		type ext struct {
+			gos []*xGo
+			err error
 		}
+		done := make(chan ext, 1)
+		go func() {
+			gos, err := extractGoroutines(c.Repo)
+			done <- ext{gos, err}
+		}()
+		defer func() {
+			x := <-done
+			_, nunsync := tableEmit(c, x.gos, x.err)
+			switch {
+			case nunsync > 0 && cfg.childBin == "":
+				// the table shows an unsynchronised shared access: search for a failing run with the race
+				// detector right away (race build on demand), on the regression corpus and a focused sweep
+				racePass(c, 24, 0)
+			case c.Quick() && cfg.childBin == "":
+				// the quick tier too has runs under the race detector: the small requests of the regression
+				// corpus and a few collections (the build is a few seconds once the Go build cache is warm)
+				racePass(c, 3, 4000)
+			}
+		}()
 	}
-	ncoll := c.Scale(48, 300)
+	ncoll := c.Scale(40, 300)
 	if cfg.race {
 		ncoll = 50
 	}
 	if cfg.search {
 		ncoll = 24
+	}
+	if cfg.ncoll > 0 {
+		ncoll = cfg.ncoll
 	}
 	libKinds := []string{"compare", "weighted", "fbp", "tbe"}
 	var reqs []request
@@ -1108,8 +1214,15 @@ func generate(c *core.Ctx, cfg *config) {
 		}
 	}
 	// the hash map shared by the workers, filled concurrently
-	for i := 0; i < c.Scale(6, 40); i++ {
+	nhm := c.Scale(6, 40)
+	if cfg.ncoll > 0 && cfg.ncoll <= 5 {
+		nhm = 2 // the small race pass of the quick tier
+	}
+	for i := 0; i < nhm; i++ {
 		n := 1 + g.Intn(3000)
+		if nhm == 2 {
+			n = 1 + g.Intn(400)
+		}
 		if i%3 == 0 {
 			n = 1 + g.Intn(40)
 		}
